@@ -111,6 +111,17 @@ def analyse(ctx, results, prop):
 
 
 def run(ctx):
+    # ---- sessions nested in time on one handle (a root filler that has already closed a shard stays open while a complete session into an
+    # existing sub-directory commits, then it exits): the metadata is exact afterwards
+    from harness.checks import c08
+    nest = child.call("harness.checks.c08", "nested_sessions",
+                      [{"root": str(ctx.scratch / f"c04n_{i}"), "fmt": ["npz", "fb", "tfrec"][(i + ctx.seed) % 3], "eps": 2 + i % 2, "multi": False, "closed_first": True, "existing_sub": True}
+                       for i in range(ctx.pick(2, 4))], timeout=900)
+    for r in nest:
+        if r.get("error") or r.get("problems") or r["got"] != r["want"]:
+            ctx.report({"kind": "inexact", "nested_in_time": True},
+                       f"a root filler left open (first shard closed) around a complete session into a sub-directory: {r.get('error') or ''} {(r.get('problems') or [''])[0]} (read back {len(r.get('got', []))} of {len(r['want'])} examples)",
+                       {"nested_case": r["case"], "result": {k: v for k, v in r.items() if k != 'case'}})
     cases = gen(ctx, "c04")
     results = []
     for i in range(0, len(cases), 10):
